@@ -8,7 +8,7 @@ import (
 )
 
 // Witness keys: the shrunk program with identifiers alpha-renamed and literals abstracted to a
-// class (int: 0 / P small positive / N negative / BIG / 0oP octal; str: E empty / S ascii / U
+// class (int: P small non-negative / N negative / BIG / 0oP octal; str: E empty / S ascii / U
 // non-ascii, format strings keep their directives; list and dict literals keep the set of element
 // classes). Disagreements that need the languages' own operator precedence (they vanish when every
 // operator is parenthesised) are keyed by the shape of the flat operator chain instead.
@@ -17,11 +17,9 @@ func intClass(n *Node) string {
 	switch {
 	case n.Oct:
 		return "0oP"
-	case n.I == 0:
-		return "0"
 	case n.I >= 1<<31 || n.I <= -(1<<31):
 		return "BIG"
-	case n.I > 0:
+	case n.I >= 0:
 		return "P"
 	}
 	return "N"
